@@ -37,6 +37,17 @@ Tol(fam) == CASE fam \in {"Normal", "Cauchy", "Gumbel", "Frechet", "SkewNormal",
 \* ZS: mean = m/16, std_dev = s/16, z = k/16  =>  256 * (mean + std_dev * z) = 16 m + s k   (exact in f32 and f64)
 ZScoreOK(m, s, k, r256) == r256 = 16 * m + s * k
 
+\* Triangular(min, max, mode) is the exact quantile transform of one uniform draw f:
+\*   f*range < mode-min :  (x - min)^2 = f * range * (mode - min)
+\*   otherwise          :  (max - x)^2 = (1 - f) * range * (max - mode)
+\* On the lattice f = fn/65536 with integer parameters where the right-hand side is the square of a dyadic,
+\* the float evaluation is exact; xq = (x - min)*256 and yq = (max - x)*256 are then integers.
+TriOK(mn, mx, md, fn, xq, yq) ==
+    LET range == mx - mn IN
+    IF fn * range < (md - mn) * 65536
+      THEN xq >= 0 /\ xq * xq = fn * range * (md - mn)
+      ELSE yq >= 0 /\ yq * yq = (65536 - fn) * range * (mx - md)
+
 \* C11 wiring on dyadic alpha = a[i]/64: the stick-breaking Beta parameters
 RECURSIVE TailSum(_, _)
 TailSum(a, i) == IF i > Len(a) THEN 0 ELSE a[i] + TailSum(a, i + 1)
